@@ -1313,7 +1313,8 @@ pub(crate) fn target_n_trees(
             // 2. Find the number of tree nodes required per trees
             let tree_nodes_per_tree = descendant_required + 1;
             // 3. Find the number of tree required to get as many tree nodes as item:
-            let mut nb_trees = item_indices.len() / tree_nodes_per_tree;
+            //    A non-empty index always needs at least one tree (the division gives 0 when `dimensions` is 1).
+            let mut nb_trees = (item_indices.len() / tree_nodes_per_tree).max(1);
 
             // 4. We don't want to shrink too quickly when a user remove some documents.
             //    We're only going to shrink if we should remove more than 20% of our trees.
